@@ -635,9 +635,11 @@ func checkCLI(dir string) func(c cliCase) (pbt.Outcome, error) {
 				if len(c.Ranges) > 0 {
 					// the partition file written for the replicates describes their blocks
 					part, k := partitionOf(c.Ranges, l)
-					if partial := blocksShorterThanParts(c.A, part, k); partial && steerAround(keyOutPartitionFrac) {
-						// FINDINGS.md: with --frac < 1 the file lists the columns of the FULL partitions
-						o.Exclude(keyOutPartitionFrac)
+					if blocksShorterThanParts(c.A, part, k) {
+						// what the file should hold when a block is shorter than its partition is not
+						// specified (observation in FINDINGS.md): not judged
+						o.Ambiguous++
+						o.Class("seqboot --partition --frac < 1: out-partition file not judged")
 					} else if err = invOutPartition(r1.files["out.partition"], orig, rows, c.A, part, k); err != nil {
 						break
 					}
@@ -668,14 +670,6 @@ func checkCLI(dir string) func(c cliCase) (pbt.Outcome, error) {
 		return o, nil
 	}
 }
-
-// Findings on the unchanged tree that wait for a decision (props/c10/FINDINGS.md): the oracle steers
-// around their signature and counts it, exactly as for a listed known finding
-const keyOutPartitionFrac = "seqboot-out-partition-ignores-frac"
-
-var pending = map[string]bool{keyOutPartitionFrac: true}
-
-func steerAround(key string) bool { return pbt.Known(key) || pending[key] }
 
 // blocksShorterThanParts: some block of the replicate has fewer columns than its partition
 func blocksShorterThanParts(frac float64, part []int, k int) bool {
